@@ -340,7 +340,7 @@ func RunProp[C any](t *testing.T, s Spec[C]) {
 			writeJSON(replayPath, c)
 			var sb strings.Builder
 			for _, d := range bad {
-				fmt.Fprintf(&sb, "\n  VERIF-DISC kind=%s detail=%s", d.Kind, d.Detail)
+				fmt.Fprintf(&sb, "\n  VERIF-DISC kind=%s detail=%s", d.Kind, strings.ReplaceAll(d.Detail, "\n", " // "))
 			}
 			rt.Fatalf("property %s violated (replay %s):%s", s.ID, replayPath, sb.String())
 		}
